@@ -1,6 +1,12 @@
 /-
 MBI image theorems for the `signedV21` family (classes whose `collect_data` resolves to the signedV21 collector).
 See Properties/C01.lean for the statements' meaning; base lemmas in Proofs/MbiBase.lean.
+
+Structure of the file: class facts (`V21Cls`) and configuration facts (`V21Cfg`) extracted once from `ClassWF` / `cfgWF`;
+closed forms of the length sums and of the exported image (`v21Image = v21App ++ cert ++ v21Man ++ signature ++ v21Hash`);
+the order of the `mix_parse` calls (`v21OkOrder`: nobody is called while it must wait; `parseOrder` enumerates the data
+mixins); one `mix_parse` call by provider (`v21Upd`), the fold over the order and its closed form (`v21B`); the reverts;
+the re-export from the parsed settings (`v21Cfg'`).
 -/
 import SpsdkVerif.Proofs.MbiBase
 
@@ -11,22 +17,359 @@ open SpsdkVerif.Generated.MbiClasses (MixinName Method Attr provider attrs prePa
 
 variable {co : CryptoOps} {env : Env} {c : Cls} {cfg : Cfg} {signer : Signer}
 
-theorem disassemble_collect_signedV21 (h : Hyp co env c cfg signer) (hf : c.family = some .signedV21) (dek : Option Bytes)
-    (p : Parsed) (hp : p.tz = cfg.tz) (hcert : p.cert.isSome = c.hasAttr .cert_block) (hr : p.reloc = none) :
-    ∃ raw, collect c cfg = .ok raw
-      ∧ disassemble c p raw = .ok { p with app := (canon c cfg dek).app, reloc := (canon c cfg dek).reloc } := by
-  sorry
+/-- class facts of the signedV21 family -/
+structure V21Cls (c : Cls) : Prop where
+  itype : c.imageType ≤ imageTypeMask
+  tzs : c.tzSize % 4 = 0
+  ivt : c.hasAttr .ivt_table = true
+  clean : c.hasAttr .clean_ivt = true
+  hasApp : c.has .Mbi_MixinApp = true
+  order : (parseOrder c).isSome = true
+  appAll : (c.appLenProviders.all fun o => o == none || o == some .Mbi_MixinApp || o == some .Mbi_MixinRelocTable) = true
+  appCnt : provCount c.appLenProviders .Mbi_MixinApp = 1
+  relCnt : provCount c.appLenProviders .Mbi_MixinRelocTable = 0
+  aTab : c.hasAttr .app_table = false
+  aDis : c.hasAttr .disassembly_app_data = false
+  aLoad : c.hasAttr .load_address = c.has .Mbi_MixinLoadAddress
+  aSub : c.hasAttr .image_subtype = c.has .Mbi_MixinImageSubType
+  aVer : c.hasAttr .image_version = c.has .Mbi_MixinImageVersion
+  aV2T : c.hasAttr .image_version_to_image_type = c.has .Mbi_MixinImageVersion
+  aHw : c.hasAttr .user_hw_key_enabled = c.has .Mbi_MixinHwKey
+  aKs : c.hasAttr .key_store = false
+  aHmac : c.hasAttr .hmac_key = false
+  aBca : c.hasAttr .bca = false
+  aFcf : c.hasAttr .fcf = false
+  rColl : c.resolve .collect_data = some .Mbi_ExportMixinAppCertBlockManifest
+  rDis : c.resolve .disassemble_image = some .Mbi_ExportMixinAppCertBlockManifest
+  rEnc : c.resolve .encrypt = none
+  rPost : c.resolve .post_encrypt = none
+  rFin : c.resolve .finalize = some .Mbi_ExportMixinAppCertBlockManifest
+  sign : c.signKind = .ecc
+  itype0 : c.imageType ≠ 0
+  hasV21 : c.has .Mbi_MixinCertBlockV21 = true
+  hasV1 : c.has .Mbi_MixinCertBlockV1 = false
+  aCert : c.hasAttr .cert_block = true
+  mkSome : c.manifestKind.isSome = true
+  hasReloc : c.has .Mbi_MixinRelocTable = false
+  hasHmac : c.has .Mbi_MixinHmac = false
+  hasKs : c.has .Mbi_MixinKeyStore = false
+  hasCtr : c.has .Mbi_MixinCtrInitVector = false
+  aTz : c.hasAttr .trust_zone = false
+  lens : lenProvidersAre c.lenProviders ([.Mbi_MixinApp, .Mbi_MixinCertBlockV21] ++
+            if c.manifestKind = some .digest then [.Mbi_MixinManifestDigest] else [.Mbi_MixinManifest]) = true
 
-theorem parse_export_signedV21 (h : Hyp co env c cfg signer) (hf : c.family = some .signedV21) (dek : Option Bytes) :
-    ∃ e, exportImage co c cfg signer = .ok e ∧ parseImage co env c dek e = .ok (canon c cfg dek) := by
-  sorry
+theorem signedV21_collector (hf : c.family = some .signedV21) :
+    c.resolve .collect_data = some .Mbi_ExportMixinAppCertBlockManifest := by
+  unfold Cls.family at hf
+  split at hf <;> simp_all
 
-theorem reexport_signedV21 (h : Hyp co env c cfg signer) (hf : c.family = some .signedV21) (signer' : Signer)
-    (hs' : ∀ m, (signer' m).length = cfg.sigLen) (dek : Option Bytes)
-    (hdek : c.has .Mbi_MixinHmac = true → dek = cfg.hmacKey) :
-    ∃ e e', exportImage co c cfg signer = .ok e ∧ exportImage co c (canon c cfg dek).toCfg signer' = .ok e'
-      ∧ eqOutsideSig c cfg e e' := by
-  sorry
+theorem signedV21_classFacts (hc : ClassWF c = true) (hf : c.family = some .signedV21) : V21Cls c := by
+  have hcoll := signedV21_collector hf
+  unfold ClassWF at hc
+  simp only [hf, Bool.and_eq_true, beq_iff_eq, Bool.not_eq_true', bne_iff_ne, ne_eq, decide_eq_true_eq,
+    and_assoc, Option.isNone_iff_eq_none] at hc
+  obtain ⟨h1, h2, h3, h4, -, h6, h7, h8, h9, h10, h11, h12, h13, h14, h15, h16, h17, h18, h19, h20, h21,
+    h22, h23, h24, h25, h26, h27, h28, h29, h30, h31, h32, h33, h34, h35, h36, h37⟩ := hc
+  simp only [h32, Bool.false_eq_true, if_false] at h10 h11 h12
+  rw [h34] at h18
+  rw [h33] at h19
+  exact ⟨h1, h2, h3, h4, h6, h7, h8, h9, h10, h11, h12, h13, h14, h15, h16, h17, h18, h19, h20, h21, hcoll,
+    h22, h23, h24, h25, h26, h27, h28, h29, h30, h31, h32, h33, h34, h35, h36, h37⟩
+
+
+/-- configuration facts (signedV21 classes) -/
+structure V21Cfg (c : Cls) (cfg : Cfg) : Prop where
+  val : validate c cfg = .ok ()
+  pack : packGuard c cfg = .ok ()
+  la : cfg.loadAddress < 2 ^ 32
+  iv : cfg.imageVersion < 2 ^ 16
+  st : cfg.subType ≤ subTypeMask
+  fw : cfg.fwVersion < 2 ^ 32
+  fl : flagsOf c cfg < 2 ^ 32
+  tz : ∀ d, cfg.tz = .custom d → d.length = c.tzSize ∧ c.tzSize > 0
+  reloc : cfg.reloc = none
+  ks : cfg.keyStore = none
+  hmac : cfg.hmacKey = none
+  bca : cfg.bca = none
+  fcf : cfg.fcf = none
+  certne : cfg.cert ≠ []
+  sigpos : cfg.sigLen > 0
+  dig : c.manifestKind ≠ some .digest → cfg.digest = none
+  sha1 : cfg.digest ≠ some .sha1
+  ver0 : c.has .Mbi_MixinImageVersion = false → cfg.imageVersion = 0
+  sub0 : c.has .Mbi_MixinImageSubType = false → cfg.subType = 0
+  hw0 : c.has .Mbi_MixinHwKey = false → cfg.hwKey = false
+  la0 : c.has .Mbi_MixinLoadAddress = false → cfg.loadAddress = 0
+  ctr : cfg.ctrIv = []
+
+theorem signedV21_cfgFacts (F : V21Cls c) (hc : cfgWF c cfg = true) : V21Cfg c cfg := by
+  unfold cfgWF at hc
+  simp only [Bool.and_eq_true, beq_iff_eq, Bool.not_eq_true', bne_iff_ne, ne_eq, decide_eq_true_eq, and_assoc,
+    Option.isNone_iff_eq_none, List.isEmpty_iff] at hc
+  obtain ⟨h1, h2, h3, h4, h5, h6, h7, h8, h9, h10, h11, h12, h13, h14, h15, h16, h17, h18, h19, h20, h21, h22,
+    h23, h24, h25, h26, h27⟩ := hc
+  have h18' := h18 F.hasV21
+  refine ⟨h1, h2, h3, h4, h5, h6, h7, ?_, ?_, ?_, ?_, h15, h16, ?_, h18'.2, h20, h21, h23, h24, h25, h26, h27 F.hasCtr⟩
+  · intro d hd
+    rw [hd] at h8
+    simpa using h8
+  · cases hr : cfg.reloc with
+    | none => rfl
+    | some es => rw [hr] at h10; simp [F.hasReloc] at h10
+  · cases hr : cfg.keyStore with
+    | none => rfl
+    | some es => rw [hr] at h11; simp [F.hasKs] at h11
+  · cases hr : cfg.hmacKey with
+    | none => rfl
+    | some es => rw [hr] at h12; simp [F.hasHmac] at h12
+  · intro hn; simp [hn] at h18'
+
+
+/-! ### membership facts -/
+
+theorem signedV21_forM_ok {α : Type} (f : α → PyRes Unit) : ∀ (l : List α), forM l f = .ok () → ∀ m ∈ l, f m = .ok ()
+  | [], _, m, hm => by cases hm
+  | x :: xs, h, m, hm => by
+    rw [List.forM_cons] at h
+    cases hx : f x with
+    | error e => rw [hx] at h; cases h
+    | ok u =>
+      rw [hx] at h
+      cases hm with
+      | head => exact hx
+      | tail _ hm' => exact signedV21_forM_ok f xs h m hm'
+
+theorem signedV21_validate_mem (h : validate c cfg = .ok ()) : ∀ m ∈ c.dataMixins, validateMixin c cfg m = .ok () := by
+  unfold validate at h
+  rw [List.forM_eq_forM] at h
+  exact signedV21_forM_ok _ _ h
+
+theorem signedV21_has_mem {c : Cls} {b : MixinName} (h : c.has b = true) : ∃ m ∈ c.mixins, derivesFrom m b = true := by
+  simpa [Cls.has, List.any_eq_true] using h
+
+theorem signedV21_has_false {c : Cls} {b : MixinName} (h : c.has b = false) : ∀ m ∈ c.mixins, derivesFrom m b = false := by
+  simpa [Cls.has, List.any_eq_false] using h
+
+theorem signedV21_hasAttr_false {c : Cls} {a : Attr} (h : c.hasAttr a = false) :
+    ∀ m ∈ c.mixins, (attrs m).contains a = false := by
+  simpa [Cls.hasAttr, List.any_eq_false] using h
+
+theorem signedV21_mem_data {c : Cls} {m : MixinName} (h : m ∈ c.dataMixins) : m ∈ c.mixins ∧ isData m = true := by
+  simpa [Cls.dataMixins] using h
+
+theorem signedV21_derives_app (m : MixinName) (h : derivesFrom m .Mbi_MixinApp = true) : m = .Mbi_MixinApp := by
+  cases m <;> first | rfl | (revert h; decide)
+
+theorem signedV21_derives_manifest (m : MixinName)
+    (h : derivesFrom m .Mbi_MixinManifestCrc = true ∨ derivesFrom m .Mbi_MixinManifestDigest = true) :
+    derivesFrom m .Mbi_MixinTrustZone = true ∧ provider m .mix_validate = some .Mbi_MixinManifest ∧ isData m = true := by
+  cases m <;> first | decide | (revert h; decide)
+
+theorem signedV21_manifest_mem (F : V21Cls c) :
+    ∃ m ∈ c.mixins, derivesFrom m .Mbi_MixinTrustZone = true ∧ provider m .mix_validate = some .Mbi_MixinManifest
+      ∧ isData m = true := by
+  have h := F.mkSome
+  unfold Cls.manifestKind at h
+  by_cases h1 : c.has .Mbi_MixinManifestCrc = true
+  · obtain ⟨m, hm, hd⟩ := signedV21_has_mem h1
+    exact ⟨m, hm, signedV21_derives_manifest m (Or.inl hd)⟩
+  · by_cases h2 : c.has .Mbi_MixinManifestDigest = true
+    · obtain ⟨m, hm, hd⟩ := signedV21_has_mem h2
+      exact ⟨m, hm, signedV21_derives_manifest m (Or.inr hd)⟩
+    · simp [h1, h2] at h
+
+theorem signedV21_hasTrustZone (F : V21Cls c) : c.hasTrustZone = true := by
+  obtain ⟨m, hm, hd, -, -⟩ := signedV21_manifest_mem F
+  have : c.has .Mbi_MixinTrustZone = true := by
+    simp only [Cls.has, List.any_eq_true]; exact ⟨m, hm, hd⟩
+  simp [Cls.hasTrustZone, this]
+
+theorem signedV21_tz_ne_disabled (F : V21Cls c) (G : V21Cfg c cfg) : cfg.tz ≠ .disabled := by
+  obtain ⟨m, hm, -, hp, hd⟩ := signedV21_manifest_mem F
+  have hmem : m ∈ c.dataMixins := by simp [Cls.dataMixins, hm, hd]
+  have := signedV21_validate_mem G.val m hmem
+  unfold validateMixin at this
+  rw [hp] at this
+  intro h
+  simp [h] at this
+
+theorem signedV21_app_len (F : V21Cls c) (G : V21Cfg c cfg) :
+    minIvtSize ≤ (appData cfg).length := by
+  obtain ⟨m, hm, hd⟩ := signedV21_has_mem F.hasApp
+  have := signedV21_derives_app m hd
+  subst this
+  have hmem : MixinName.Mbi_MixinApp ∈ c.dataMixins := by simp [Cls.dataMixins, hm, isData]
+  have := signedV21_validate_mem G.val _ hmem
+  have hp : provider .Mbi_MixinApp .mix_validate = some .Mbi_MixinApp := rfl
+  unfold validateMixin at this
+  rw [hp] at this
+  by_cases hl : (appData cfg).length < minAppSize
+  · simp only [hl, if_true] at this; cases this
+  · simp only [minAppSize] at hl; simp only [minIvtSize]; omega
+
+/-- the digest term of the length (0 for the CRC manifest) -/
+def v21DigLen (k : ManifestKind) (cfg : Cfg) : Nat := match k with | .digest => digestSize cfg.digest | .crc => 0
+
+theorem signedV21_totalLen (F : V21Cls c) (k : ManifestKind) (hk : c.manifestKind = some k) :
+    totalLen c cfg = (((appData cfg).length + (cfg.cert.length + cfg.sigLen)
+      + (manifestLen k cfg + v21DigLen k cfg) : Nat) : Int) := by
+  have h1 : totalLen c cfg
+      = (c.lenProviders.map (fun o => match o with | some m => mixLenOf c cfg m | none => 0)).sum := by
+    unfold totalLen Cls.lenProviders
+    rw [List.map_map]
+    rfl
+  have h2 := sum_of_lenProvidersAre c.lenProviders _ (mixLenOf c cfg) F.lens
+  rw [h1]
+  refine Eq.trans h2 ?_
+  rw [hk]
+  cases k <;> simp [mixLenOf, hk, v21DigLen] <;> omega
+
+theorem signedV21_appLen_aux (A R : Nat) : ∀ (l : List (Option MixinName)),
+    (l.map (fun o => match o with
+        | some .Mbi_MixinApp => A | some .Mbi_MixinRelocTable => R | _ => 0)).sum
+      = provCount l .Mbi_MixinApp * A + provCount l .Mbi_MixinRelocTable * R
+  | [] => by simp [provCount]
+  | o :: l => by
+    have ih := signedV21_appLen_aux A R l
+    simp only [provCount] at ih ⊢
+    rw [List.map_cons, List.sum_cons, ih]
+    cases o with
+    | none => simp [List.count_cons]
+    | some d => cases d <;> simp [List.count_cons, Nat.add_mul] <;> omega
+
+theorem signedV21_appLen (F : V21Cls c) : appLen c cfg = (appData cfg).length := by
+  have h1 : appLen c cfg = (c.appLenProviders.map (fun o => match o with
+        | some .Mbi_MixinApp => (appData cfg).length | some .Mbi_MixinRelocTable => relocLen c cfg | _ => 0)).sum := by
+    unfold appLen Cls.appLenProviders
+    rw [List.map_map]
+    rfl
+  rw [h1, signedV21_appLen_aux, F.appCnt, F.relCnt]
+  omega
+
+
+/-! ### closed form of the exported image -/
+
+/-- the application with the updated IVT -/
+def v21App (c : Cls) (cfg : Cfg) : Bytes := updateIvt c cfg (appData cfg) (totalLen c cfg).toNat (appLen c cfg)
+
+/-- the manifest as emitted -/
+def v21Man (c : Cls) (cfg : Cfg) (k : ManifestKind) : Bytes :=
+  match k with
+  | .digest => manifestBytes k cfg 0
+  | .crc => manifestBytes k cfg (crc32m (dropLast (v21App c cfg ++ cfg.cert ++ manifestBytes k cfg 0) 4))
+
+def v21Raw (c : Cls) (cfg : Cfg) (k : ManifestKind) : Bytes := v21App c cfg ++ cfg.cert ++ v21Man c cfg k
+
+def v21Hash (co : CryptoOps) (cfg : Cfg) (k : ManifestKind) (raw : Bytes) : Bytes :=
+  match k, cfg.digest with
+  | .digest, some a => co.hash a raw
+  | _, _ => []
+
+def v21Image (co : CryptoOps) (c : Cls) (cfg : Cfg) (signer : Signer) (k : ManifestKind) : Bytes :=
+  v21Raw c cfg k ++ signer (v21Raw c cfg k) ++ v21Hash co cfg k (v21Raw c cfg k)
+
+theorem signedV21_app_ne (F : V21Cls c) (G : V21Cfg c cfg) : (appData cfg).isEmpty = false := by
+  have := signedV21_app_len F G
+  cases h : appData cfg with
+  | nil => rw [h] at this; simp [minIvtSize] at this
+  | cons x xs => rfl
+
+theorem signedV21_collect (F : V21Cls c) (G : V21Cfg c cfg) (k : ManifestKind) (hk : c.manifestKind = some k) :
+    collect c cfg = .ok (v21Raw c cfg k) := by
+  unfold collect
+  rw [F.rColl]
+  unfold collectAppCertManifest
+  simp only [hk, signedV21_app_ne F G]
+  cases k <;> simp [v21Raw, v21Man, v21App]
+
+theorem signedV21_export (F : V21Cls c) (G : V21Cfg c cfg) (k : ManifestKind) (hk : c.manifestKind = some k) :
+    exportImage co c cfg signer = .ok (v21Image co c cfg signer k) := by
+  have hfin : finalizeStage co c cfg (v21Raw c cfg k) (v21Raw c cfg k ++ signer (v21Raw c cfg k))
+      = .ok (v21Image co c cfg signer k) := by
+    unfold finalizeStage
+    rw [F.rFin, hk]
+    cases k <;> cases hd : cfg.digest <;> simp [v21Image, v21Hash, hd]
+  unfold exportImage
+  simp only [G.val, G.pack, signedV21_collect F G k hk, bind, Except.bind, encryptStage, F.rEnc, postEncryptStage,
+    F.rPost, signStage, F.sign, hfin]
+
+theorem signedV21_pack (G : V21Cfg c cfg) :
+    0 ≤ totalLen c cfg ∧ totalLen c cfg + cfg.sigLen + encIvtCopySize + encIvSize < 2 ^ 32 := by
+  have h := G.pack
+  unfold packGuard at h
+  split at h
+  · cases h
+  · rename_i hn
+    simp only [not_or] at hn
+    exact ⟨by omega, by omega⟩
+
+theorem signedV21_manifestBytes_length (k : ManifestKind) (cfg : Cfg) (crc : Nat) :
+    (manifestBytes k cfg crc).length = manifestLen k cfg := by
+  cases k <;> simp [manifestBytes, manifestLen, le32_length, manifestMagic, manifestHeaderSize] <;> omega
+
+theorem signedV21_man_length (c : Cls) (cfg : Cfg) (k : ManifestKind) : (v21Man c cfg k).length = manifestLen k cfg := by
+  cases k <;> simp [v21Man, signedV21_manifestBytes_length]
+
+theorem signedV21_app_length (F : V21Cls c) (G : V21Cfg c cfg) : (v21App c cfg).length = (appData cfg).length :=
+  updateIvt_length _ _ _ _ _ (signedV21_app_len F G)
+
+theorem signedV21_hash_length (hl : CryptoLaws co) (G : V21Cfg c cfg) (k : ManifestKind) (raw : Bytes) :
+    (v21Hash co cfg k raw).length = v21DigLen k cfg := by
+  have := G.sha1
+  cases k <;> cases hd : cfg.digest with
+  | none => simp [v21Hash, v21DigLen, hd, digestSize]
+  | some a => cases a <;> simp_all [v21Hash, v21DigLen, digestSize, hl.hash_len, HashAlg.size]
+
+theorem signedV21_raw_length (F : V21Cls c) (G : V21Cfg c cfg) (k : ManifestKind) :
+    (v21Raw c cfg k).length = (appData cfg).length + cfg.cert.length + manifestLen k cfg := by
+  simp [v21Raw, signedV21_app_length F G, signedV21_man_length]; omega
+
+theorem signedV21_image_length (hl : CryptoLaws co) (hs : ∀ m, (signer m).length = cfg.sigLen)
+    (F : V21Cls c) (G : V21Cfg c cfg) (k : ManifestKind) (hk : c.manifestKind = some k) :
+    ((v21Image co c cfg signer k).length : Int) = totalLen c cfg := by
+  rw [signedV21_totalLen F k hk]
+  simp only [v21Image, List.length_append, signedV21_raw_length F G, hs, signedV21_hash_length hl G]
+  omega
+
+
+theorem signedV21_words (F : V21Cls c) (G : V21Cfg c cfg) (rest : Bytes) :
+    rd32 (v21App c cfg ++ rest) ivtImageLengthOffset = (if c.zeroTotalLength then 0 else (totalLen c cfg).toNat)
+    ∧ rd32 (v21App c cfg ++ rest) ivtImageFlagsOffset = flagsOf c cfg
+    ∧ rd32 (v21App c cfg ++ rest) ivtCrcCertificateOffset = (appData cfg).length
+    ∧ rd32 (v21App c cfg ++ rest) ivtLoadAddrOffset = (if c.has .Mbi_MixinLoadAddress then cfg.loadAddress else 0) := by
+  have hA := signedV21_app_len F G
+  obtain ⟨hp0, hp1⟩ := signedV21_pack G
+  obtain ⟨k, hk⟩ := Option.isSome_iff_exists.mp F.mkSome
+  have htl := signedV21_totalLen (cfg := cfg) F k hk
+  have hal := signedV21_appLen (cfg := cfg) F
+  have hw := updateIvt_words c cfg (appData cfg) (totalLen c cfg).toNat (appLen c cfg) hA G.fl
+    (by simp only [encIvtCopySize, encIvSize] at hp1; omega)
+    (by rw [hal]; simp only [encIvtCopySize, encIvSize] at hp1; omega) G.la
+  simp only [v21App]
+  rw [rd32_updateIvt_append _ _ _ _ _ _ _ hA (by simp [ivtImageLengthOffset]),
+    rd32_updateIvt_append _ _ _ _ _ _ _ hA (by simp [ivtImageFlagsOffset]),
+    rd32_updateIvt_append _ _ _ _ _ _ _ hA (by simp [ivtCrcCertificateOffset]),
+    rd32_updateIvt_append _ _ _ _ _ _ _ hA (by simp [ivtLoadAddrOffset])]
+  obtain ⟨h1, h2, h3, h4⟩ := hw
+  refine ⟨h1, h2, ?_, ?_⟩
+  · rw [h3, if_neg F.itype0, hal]
+  · rw [h4, F.aLoad]
+
+theorem signedV21_image_assoc (co : CryptoOps) (c : Cls) (cfg : Cfg) (signer : Signer) (k : ManifestKind) :
+    v21Image co c cfg signer k = v21App c cfg ++ (cfg.cert ++ (v21Man c cfg k ++ (signer (v21Raw c cfg k)
+      ++ v21Hash co cfg k (v21Raw c cfg k)))) := by
+  simp [v21Image, v21Raw]
+
+theorem total_len_sum_signedV21 (h : Hyp co env c cfg signer) (hf : c.family = some .signedV21) :
+    ∃ e, exportImage co c cfg signer = .ok e
+      ∧ (e.length : Int) = totalLen c cfg + (if c.signKind = .rsa then cfg.sigLen else 0)
+          + (if c.family = some .encrypted then encIvtCopySize + encIvSize else 0) := by
+  have F := signedV21_classFacts h.hcls hf
+  have G := signedV21_cfgFacts F h.hcfg
+  obtain ⟨k, hk⟩ := Option.isSome_iff_exists.mp F.mkSome
+  refine ⟨_, signedV21_export F G k hk, ?_⟩
+  rw [signedV21_image_length h.hlaws h.hsig F G k hk, F.sign, hf]
+  simp
 
 theorem header_describes_signedV21 (h : Hyp co env c cfg signer) (hf : c.family = some .signedV21) :
     ∃ e, exportImage co c cfg signer = .ok e
@@ -41,12 +384,719 @@ theorem header_describes_signedV21 (h : Hyp co env c cfg signer) (hf : c.family 
           ∧ (let off := appLen c cfg + (if c.has .Mbi_MixinHmac then hmacSize + (cfg.keyStore.getD []).length else 0)
              slice e off (off + cfg.cert.length)
                = (if c.has .Mbi_MixinCertBlockV1 then certInImage c cfg else cfg.cert))) := by
-  sorry
+  have F := signedV21_classFacts h.hcls hf
+  have G := signedV21_cfgFacts F h.hcfg
+  obtain ⟨k, hk⟩ := Option.isSome_iff_exists.mp F.mkSome
+  refine ⟨_, signedV21_export F G k hk, ?_⟩
+  have hlen := signedV21_image_length (signer := signer) h.hlaws h.hsig F G k hk
+  have hal := signedV21_appLen (cfg := cfg) F
+  have hAl := signedV21_app_length F G
+  obtain ⟨hp0, hp1⟩ := signedV21_pack G
+  rw [signedV21_image_assoc] at hlen ⊢
+  obtain ⟨h1, h2, h3, h4⟩ := signedV21_words F G (cfg.cert ++ (v21Man c cfg k ++ (signer (v21Raw c cfg k)
+      ++ v21Hash co cfg k (v21Raw c cfg k))))
+  refine ⟨?_, h2, h4, ?_, ?_, ?_⟩
+  · have : (totalLen c cfg).toNat = (v21App c cfg ++ (cfg.cert ++ (v21Man c cfg k ++ (signer (v21Raw c cfg k)
+      ++ v21Hash co cfg k (v21Raw c cfg k))))).length := by
+      generalize (v21App c cfg ++ (cfg.cert ++ (v21Man c cfg k ++ (signer (v21Raw c cfg k)
+        ++ v21Hash co cfg k (v21Raw c cfg k))))).length = n at hlen
+      omega
+    rw [h1, this]
+  · intro h0; exact absurd h0 F.itype0
+  · intro hc; rw [F.sign] at hc; cases hc
+  · intro _
+    refine ⟨by rw [h3, hal], ?_⟩
+    simp only [F.hasHmac, F.hasV1, hal, Bool.false_eq_true, if_false, Nat.add_zero, slice]
+    rw [← hAl, ← List.append_assoc, List.take_append_of_le_length (by simp), List.take_of_length_le (by simp),
+      List.drop_left]
 
-theorem total_len_sum_signedV21 (h : Hyp co env c cfg signer) (hf : c.family = some .signedV21) :
-    ∃ e, exportImage co c cfg signer = .ok e
-      ∧ (e.length : Int) = totalLen c cfg + (if c.signKind = .rsa then cfg.sigLen else 0)
-          + (if c.family = some .encrypted then encIvtCopySize + encIvSize else 0) := by
-  sorry
+theorem signedV21_disassemble (F : V21Cls c) (G : V21Cfg c cfg) (k : ManifestKind) (p : Parsed)
+    (hcert : p.cert.isSome = true) :
+    disassemble c p (v21Raw c cfg k) = .ok { p with app := some (cleanIvt (appData cfg)) } := by
+  have hA := signedV21_app_len F G
+  have hAl := signedV21_app_length F G
+  have h3 : rd32 (v21Raw c cfg k) ivtCrcCertificateOffset = (appData cfg).length := by
+    have := (signedV21_words F G (cfg.cert ++ v21Man c cfg k)).2.2.1
+    simpa [v21Raw] using this
+  have htake : (v21Raw c cfg k).take (appData cfg).length = v21App c cfg := by
+    rw [← hAl]; simp [v21Raw]
+  unfold disassemble
+  simp only [F.rDis, hcert, if_true, h3, htake, disassemblyAppData, F.aDis, Bool.false_eq_true, if_false, bind,
+    Except.bind, pure, Except.pure]
+  simp only [v21App, cleanIvt_updateIvt _ _ _ _ _ hA]
+
+theorem signedV21_canon_app (F : V21Cls c) (dek : Option Bytes) :
+    (canon c cfg dek).app = some (cleanIvt (appData cfg)) := by
+  simp [canon, F.clean]
+
+theorem signedV21_canon_reloc (F : V21Cls c) (dek : Option Bytes) : (canon c cfg dek).reloc = none := by
+  simp [canon, F.hasReloc]
+
+theorem disassemble_collect_signedV21 (h : Hyp co env c cfg signer) (hf : c.family = some .signedV21) (dek : Option Bytes)
+    (p : Parsed) (hp : p.tz = cfg.tz) (hcert : p.cert.isSome = c.hasAttr .cert_block) (hr : p.reloc = none) :
+    ∃ raw, collect c cfg = .ok raw
+      ∧ disassemble c p raw = .ok { p with app := (canon c cfg dek).app, reloc := (canon c cfg dek).reloc } := by
+  have F := signedV21_classFacts h.hcls hf
+  have G := signedV21_cfgFacts F h.hcfg
+  obtain ⟨k, hk⟩ := Option.isSome_iff_exists.mp F.mkSome
+  refine ⟨_, signedV21_collect F G k hk, ?_⟩
+  rw [signedV21_disassemble F G k p (by rw [hcert, F.aCert]), signedV21_canon_app F, signedV21_canon_reloc F, ← hr]
+
+/-! ### the order of the `mix_parse` calls: nobody is called while it must wait -/
+
+def v21OkOrder (c : Cls) : Bool → List MixinName → Prop
+  | _, [] => True
+  | done, m :: ms => mustWait c done m = false ∧ v21OkOrder c (done || setsCert m) ms
+
+theorem signedV21_okOrder_append (c : Cls) : ∀ (o1 o2 : List MixinName) (done : Bool),
+    v21OkOrder c done o1 → v21OkOrder c (done || o1.any setsCert) o2 → v21OkOrder c done (o1 ++ o2)
+  | [], o2, done, _, h2 => by simpa using h2
+  | m :: ms, o2, done, h1, h2 => by
+    refine ⟨h1.1, signedV21_okOrder_append c ms o2 _ h1.2 ?_⟩
+    simpa [List.any_cons, Bool.or_assoc] using h2
+
+theorem signedV21_parseRound (c : Cls) : ∀ (ms : List MixinName) (done : Bool),
+    v21OkOrder c done (parseRound c ms done).1
+    ∧ (parseRound c ms done).2.2 = (done || (parseRound c ms done).1.any setsCert)
+    ∧ (∀ m, m ∈ ms ↔ m ∈ (parseRound c ms done).1 ∨ m ∈ (parseRound c ms done).2.1)
+  | [], done => by simp [parseRound, v21OkOrder]
+  | m :: ms, done => by
+    unfold parseRound
+    by_cases hw : mustWait c done m = true
+    · obtain ⟨h1, h2, h3⟩ := signedV21_parseRound c ms done
+      simp only [hw, if_true]
+      refine ⟨h1, h2, ?_⟩
+      intro x
+      simp only [List.mem_cons, h3 x]
+      grind
+    · obtain ⟨h1, h2, h3⟩ := signedV21_parseRound c ms (done || setsCert m)
+      simp only [hw, Bool.false_eq_true, if_false]
+      refine ⟨⟨by simpa using hw, h1⟩, ?_, ?_⟩
+      · rw [h2]; simp [List.any_cons, Bool.or_assoc]
+      · intro x
+        simp only [List.mem_cons, h3 x]
+        grind
+
+theorem signedV21_parseOrderF (c : Cls) : ∀ (f : Nat) (todo : List MixinName) (done : Bool) (order : List MixinName),
+    parseOrderF c f todo done = some order → v21OkOrder c done order ∧ ∀ m, m ∈ order ↔ m ∈ todo := by
+  intro f
+  induction f with
+  | zero =>
+    intro todo done order h
+    cases todo with
+    | nil => simp [parseOrderF] at h; subst h; simp [v21OkOrder]
+    | cons x xs => simp [parseOrderF] at h
+  | succ f ih =>
+    intro todo done order h
+    cases todo with
+    | nil => simp [parseOrderF] at h; subst h; simp [v21OkOrder]
+    | cons x xs =>
+      unfold parseOrderF at h
+      obtain ⟨h1, h2, h3⟩ := signedV21_parseRound c (x :: xs) done
+      generalize parseRound c (x :: xs) done = r at h h1 h2 h3
+      obtain ⟨o, w, d⟩ := r
+      simp only at h h1 h2 h3
+      split at h
+      · cases h
+      · cases hr : parseOrderF c f w d with
+        | none => rw [hr] at h; cases h
+        | some rest =>
+          rw [hr] at h
+          simp only [Option.map_some, Option.some.injEq] at h
+          subst h
+          obtain ⟨i1, i2⟩ := ih w d rest hr
+          refine ⟨signedV21_okOrder_append c o rest done h1 (h2 ▸ i1), ?_⟩
+          intro m
+          rw [List.mem_append, i2 m, h3 m]
+
+theorem signedV21_parseOrder (c : Cls) (order : List MixinName) (h : parseOrder c = some order) :
+    v21OkOrder c false order ∧ ∀ m, m ∈ order ↔ m ∈ c.dataMixins :=
+  signedV21_parseOrderF c _ _ _ _ h
+
+/-- the flag word the manifest carries -/
+def v21ManFlags (k : ManifestKind) (cfg : Cfg) : Nat := match k with | .crc => 0 | .digest => manifestFlags cfg.digest
+
+theorem signedV21_manFlags_lt (k : ManifestKind) (cfg : Cfg) : v21ManFlags k cfg < 2 ^ 32 := by
+  cases k with
+  | crc => simp [v21ManFlags]
+  | digest =>
+    simp only [v21ManFlags]
+    cases cfg.digest with
+    | none => decide
+    | some a => cases a <;> decide
+
+theorem signedV21_manFlags_ok (cfg : Cfg) :
+    ¬ (manifestFlags cfg.digest &&& manifestDigestPresentFlag ≠ 0
+        ∧ (manifestFlags cfg.digest &&& manifestHashTypeMask) > 3) := by
+  cases cfg.digest with
+  | none => decide
+  | some a => cases a <;> decide
+
+theorem signedV21_digestOfFlags (cfg : Cfg) (h : cfg.digest ≠ some .sha1) :
+    digestOfFlags (manifestFlags cfg.digest) = cfg.digest := by
+  cases hd : cfg.digest with
+  | none => decide
+  | some a => cases a <;> first | decide | exact absurd hd h
+
+def v21CrcPart (k : ManifestKind) (crc : Nat) : Bytes := match k with | .crc => le32 crc | .digest => []
+
+theorem signedV21_parseManifest (c : Cls) (k : ManifestKind) (cfg : Cfg) (crc : Nat) (tail : Bytes)
+    (htail : 0 < tail.length) (hfw : cfg.fwVersion < 2 ^ 32) (hml : manifestLen k cfg < 2 ^ 32) :
+    parseManifest c k (manifestBytes k cfg crc ++ tail) = .ok (cfg.fwVersion, v21ManFlags k cfg, cfg.tz.bytes) := by
+  have hlen := signedV21_manifestBytes_length k cfg crc
+  generalize hd : manifestBytes k cfg crc ++ tail = d
+  have hdl : d.length = manifestLen k cfg + tail.length := by rw [← hd, List.length_append, hlen]
+  have hform : d = manifestMagic ++ le32 manifestFormatVersion ++ le32 cfg.fwVersion ++ le32 (manifestLen k cfg)
+      ++ le32 (v21ManFlags k cfg) ++ (cfg.tz.bytes ++ v21CrcPart k crc ++ tail) := by
+    rw [← hd]; cases k <;> simp [manifestBytes, v21ManFlags, v21CrcPart, List.append_assoc]
+  have h0 : d.take 4 = manifestMagic := by
+    rw [hform]; simp only [List.append_assoc]; exact List.take_left' (by decide)
+  have h4 : rd32 d 4 = manifestFormatVersion :=
+    rd32_at d manifestMagic _ _ 4 (by rw [hform]; simp only [List.append_assoc]; try rfl) (by decide) (by decide)
+  have h8 : rd32 d 8 = cfg.fwVersion :=
+    rd32_at d (manifestMagic ++ le32 manifestFormatVersion) _ _ 8 (by rw [hform]; simp only [List.append_assoc]; try rfl)
+      (by simp [le32_length, manifestMagic]) hfw
+  have h12 : rd32 d 12 = manifestLen k cfg :=
+    rd32_at d (manifestMagic ++ le32 manifestFormatVersion ++ le32 cfg.fwVersion) _ _ 12
+      (by rw [hform]; simp only [List.append_assoc]; try rfl) (by simp [le32_length, manifestMagic]) hml
+  have h16 : rd32 d 16 = v21ManFlags k cfg :=
+    rd32_at d (manifestMagic ++ le32 manifestFormatVersion ++ le32 cfg.fwVersion ++ le32 (manifestLen k cfg)) _ _ 16
+      (by rw [hform]) (by simp [le32_length, manifestMagic]) (signedV21_manFlags_lt k cfg)
+  have hsl : slice d manifestHeaderSize (manifestLen k cfg)
+      = cfg.tz.bytes ++ v21CrcPart k crc := by
+    have hmb : manifestBytes k cfg crc = (manifestMagic ++ le32 manifestFormatVersion ++ le32 cfg.fwVersion
+        ++ le32 (manifestLen k cfg) ++ le32 (v21ManFlags k cfg)) ++ (cfg.tz.bytes ++ v21CrcPart k crc) := by
+      cases k <;> simp [manifestBytes, v21ManFlags, v21CrcPart]
+    unfold slice
+    rw [← hd, List.take_left' hlen, hmb]
+    exact List.drop_left' (by simp [le32_length, manifestMagic, manifestHeaderSize])
+  have hml20 : manifestHeaderSize ≤ manifestLen k cfg := by simp [manifestLen]; omega
+  unfold parseManifest
+  simp only [h0, h4, h8, h12, h16, hsl]
+  rw [if_neg (by omega), if_neg (by simp), if_neg (by simp), if_neg (by omega)]
+  cases k with
+  | crc => simp [le32_length, dropLast, v21ManFlags, v21CrcPart]
+  | digest =>
+    simp only [v21ManFlags, v21CrcPart, List.append_nil]
+    rw [if_neg (signedV21_manFlags_ok cfg)]
+
+theorem signedV21_flag_getters (F : V21Cls c) (G : V21Cfg c cfg) :
+    getImageVersion (flagsOf c cfg) = (if c.has .Mbi_MixinImageVersion then cfg.imageVersion else 0)
+    ∧ getSubType (flagsOf c cfg) = (if c.has .Mbi_MixinImageSubType then cfg.subType else 0)
+    ∧ getHwKeyEnabled (flagsOf c cfg) = (c.has .Mbi_MixinHwKey && cfg.hwKey)
+    ∧ getTzType (flagsOf c cfg) = cfg.tz.tag := by
+  have htag : cfg.tz.tag ≤ tzTypeMask := by cases cfg.tz <;> simp [TzCfg.tag, tzTypeMask, tzEnabled, tzCustom, tzDisabled]
+  have hiv : cfg.imageVersion ≤ imgVerMask := by have := G.iv; simp only [imgVerMask]; omega
+  have hfo : flagsOf c cfg = createFlags c.imageType c.hasTrustZone cfg.tz.tag (c.hasAttr .image_subtype) cfg.subType
+      (c.hasAttr .user_hw_key_enabled) cfg.hwKey (c.hasAttr .key_store) false 0
+      (c.hasAttr .app_table) cfg.reloc.isSome (c.hasAttr .image_version) cfg.imageVersion
+      (c.hasAttr .image_version_to_image_type) true := by
+    unfold flagsOf; rw [G.ks]; rfl
+  have h := flags_fields c.imageType cfg.tz.tag cfg.subType cfg.imageVersion 0
+    c.hasTrustZone (c.hasAttr .image_subtype) (c.hasAttr .user_hw_key_enabled) cfg.hwKey (c.hasAttr .key_store)
+    false (c.hasAttr .app_table) cfg.reloc.isSome (c.hasAttr .image_version)
+    (c.hasAttr .image_version_to_image_type) true F.itype htag G.st hiv
+  obtain ⟨-, h2, h3, h4, -, -, h7, -⟩ := h
+  rw [hfo]
+  refine ⟨?_, ?_, ?_, ?_⟩
+  · rw [h7, F.aVer, F.aV2T]; cases c.has .Mbi_MixinImageVersion <;> simp
+  · rw [h3, F.aSub]
+  · rw [h4, F.aHw]
+  · rw [h2, signedV21_hasTrustZone F]; simp
+
+
+/-- what the parser reads in the image -/
+structure V21Img (c : Cls) (cfg : Cfg) (k : ManifestKind) (e tail : Bytes) : Prop where
+  flags : flagsIn e = flagsOf c cfg
+  la : rd32 e ivtLoadAddrOffset = (if c.has .Mbi_MixinLoadAddress then cfg.loadAddress else 0)
+  off : certOffsetChecked c e = .ok (appData cfg).length
+  dropA : e.drop (appData cfg).length = cfg.cert ++ (v21Man c cfg k ++ tail)
+  dropC : e.drop ((appData cfg).length + cfg.cert.length) = v21Man c cfg k ++ tail
+  tailpos : 0 < tail.length
+
+theorem signedV21_img (F : V21Cls c) (G : V21Cfg c cfg) (k : ManifestKind) (tail : Bytes) (htail : 0 < tail.length)
+    (hlen : ((v21App c cfg ++ (cfg.cert ++ (v21Man c cfg k ++ tail))).length : Int) = totalLen c cfg) :
+    V21Img c cfg k (v21App c cfg ++ (cfg.cert ++ (v21Man c cfg k ++ tail))) tail := by
+  obtain ⟨h1, h2, h3, h4⟩ := signedV21_words F G (cfg.cert ++ (v21Man c cfg k ++ tail))
+  have hAl := signedV21_app_length F G
+  have hA := signedV21_app_len F G
+  generalize he : v21App c cfg ++ (cfg.cert ++ (v21Man c cfg k ++ tail)) = e at h1 h2 h3 h4 hlen
+  have hel : (totalLen c cfg).toNat = e.length := by omega
+  have hge : minIvtSize ≤ e.length := by
+    rw [← he, List.length_append, hAl]; omega
+  refine ⟨h2, h4, ?_, ?_, ?_, htail⟩
+  · unfold certOffsetChecked checkTotalLength
+    simp only [h1, h3, hel]
+    have hlt : ¬ e.length < minIvtSize := by omega
+    by_cases hz : c.zeroTotalLength = true
+    · simp [hz, hlt]; rfl
+    · simp [hz, hlt]; rfl
+  · rw [← he, ← hAl, List.drop_left]
+  · rw [← he, ← hAl, ← List.append_assoc, List.drop_left' (by simp)]
+
+def v21Cert (cfg : Cfg) : CertInfo := ⟨cfg.cert, cfg.cert.length, cfg.sigLen, false⟩
+
+def v21Dig (k : ManifestKind) (cfg : Cfg) : Option HashAlg := match k with | .digest => cfg.digest | .crc => none
+
+theorem signedV21_step_cert (F : V21Cls c) (henv : EnvOK env c cfg) {k : ManifestKind} {e tail : Bytes}
+    (I : V21Img c cfg k e tail) (dek : Option Bytes) (p : Parsed) (m : MixinName)
+    (hpv : provider m .mix_parse = some .Mbi_MixinCertBlockV21) :
+    mixParse env c dek e p m = .ok { p with cert := some (v21Cert cfg) } := by
+  obtain ⟨h1, h2, h3⟩ := henv.2 F.hasV21 (v21Man c cfg k ++ tail)
+  unfold mixParse
+  simp only [hpv, I.off, bind, Except.bind, I.dropA, h1, h2, h3, pure, Except.pure]
+  simp [v21Cert]
+
+theorem signedV21_tzFromBinary (G : V21Cfg c cfg) (d : Bytes) (h : cfg.tz = .custom d) :
+    tzFromBinary c d = .ok (.custom d) := by
+  obtain ⟨h1, h2⟩ := G.tz d h
+  unfold tzFromBinary
+  rw [if_neg (by rw [h1]; omega), ← h1, List.take_length]
+
+theorem signedV21_step_manifest (F : V21Cls c) (G : V21Cfg c cfg) {k : ManifestKind} (hk : c.manifestKind = some k)
+    {e tail : Bytes} (I : V21Img c cfg k e tail) (dek : Option Bytes) (p : Parsed) (m : MixinName)
+    (hpv : provider m .mix_parse = some .Mbi_MixinManifest) (hc : p.cert = some (v21Cert cfg)) :
+    mixParse env c dek e p m = .ok { p with
+      fwVersion := cfg.fwVersion, tz := cfg.tz, manifestSeen := true, manifestFlags := v21ManFlags k cfg,
+      digest := v21Dig k cfg } := by
+  obtain ⟨hp0, hp1⟩ := signedV21_pack G
+  have htl := signedV21_totalLen (cfg := cfg) F k hk
+  have hml : manifestLen k cfg < 2 ^ 32 := by simp only [encIvtCopySize, encIvSize] at hp1; omega
+  have hpm : parseManifest c k (e.drop ((appData cfg).length + cfg.cert.length))
+      = .ok (cfg.fwVersion, v21ManFlags k cfg, cfg.tz.bytes) := by
+    rw [I.dropC]
+    cases k <;> (simp only [v21Man]; exact signedV21_parseManifest c _ cfg _ tail I.tailpos G.fw hml)
+  have htz : (if cfg.tz.bytes.isEmpty then
+        (pure (if getTzType (flagsIn e) = tzEnabled then TzCfg.enabled else TzCfg.disabled) : PyRes TzCfg)
+      else tzFromBinary c cfg.tz.bytes) = .ok cfg.tz := by
+    rw [I.flags, (signedV21_flag_getters F G).2.2.2]
+    have hnd := signedV21_tz_ne_disabled F G
+    cases ht : cfg.tz with
+    | disabled => exact absurd ht hnd
+    | enabled => rfl
+    | custom d =>
+      obtain ⟨h1, h2⟩ := G.tz d ht
+      have : d ≠ [] := by intro h; rw [h] at h1; simp at h1; omega
+      simp only [TzCfg.bytes, List.isEmpty_iff, this, if_false]
+      exact signedV21_tzFromBinary G d ht
+  have htz' : (if cfg.tz.bytes = [] then
+        (Except.ok (if getTzType (flagsIn e) = tzEnabled then TzCfg.enabled else TzCfg.disabled) : PyRes TzCfg)
+      else tzFromBinary c cfg.tz.bytes) = .ok cfg.tz := by
+    simpa [pure, Except.pure] using htz
+  unfold mixParse
+  simp only [hpv, hc, hk, v21Cert, I.off, bind, Except.bind, hpm, pure, Except.pure]
+  cases k <;> simp [v21Dig, v21ManFlags, signedV21_digestOfFlags cfg G.sha1, htz']
+
+/-- what one `mix_parse` call (by provider) writes -/
+def v21Upd (c : Cls) (cfg : Cfg) (k : ManifestKind) (o : Option MixinName) (p : Parsed) : Parsed :=
+  match o with
+  | some .Mbi_MixinLoadAddress => { p with loadAddress := if c.has .Mbi_MixinLoadAddress then cfg.loadAddress else 0 }
+  | some .Mbi_MixinImageVersion => { p with imageVersion := if c.has .Mbi_MixinImageVersion then cfg.imageVersion else 0 }
+  | some .Mbi_MixinImageSubType => { p with subType := if c.has .Mbi_MixinImageSubType then cfg.subType else 0 }
+  | some .Mbi_MixinHwKey => { p with hwKey := c.has .Mbi_MixinHwKey && cfg.hwKey }
+  | some .Mbi_MixinCertBlockV21 => { p with cert := some (v21Cert cfg) }
+  | some .Mbi_MixinManifest => { p with
+      fwVersion := cfg.fwVersion, tz := cfg.tz, manifestSeen := true, manifestFlags := v21ManFlags k cfg,
+      digest := v21Dig k cfg }
+  | _ => p
+
+/-- providers of `mix_parse` that cannot occur in a signedV21 class -/
+theorem signedV21_excluded (F : V21Cls c) (m : MixinName) (hm : m ∈ c.mixins) :
+    provider m .mix_parse ≠ some .Mbi_MixinTrustZone ∧ provider m .mix_parse ≠ some .Mbi_MixinKeyStore
+    ∧ provider m .mix_parse ≠ some .Mbi_MixinHmac ∧ provider m .mix_parse ≠ some .Mbi_MixinCtrInitVector
+    ∧ provider m .mix_parse ≠ some .Mbi_MixinCertBlockV1 ∧ provider m .mix_parse ≠ some .Mbi_MixinBca
+    ∧ provider m .mix_parse ≠ some .Mbi_MixinFcf := by
+  have h1 := signedV21_hasAttr_false F.aTz m hm
+  have h2 := signedV21_has_false F.hasKs m hm
+  have h3 := signedV21_has_false F.hasHmac m hm
+  have h4 := signedV21_has_false F.hasCtr m hm
+  have h5 := signedV21_has_false F.hasV1 m hm
+  have h6 := signedV21_hasAttr_false F.aBca m hm
+  have h7 := signedV21_hasAttr_false F.aFcf m hm
+  revert h1 h2 h3 h4 h5 h6 h7
+  cases m <;> decide
+
+theorem signedV21_step (F : V21Cls c) (G : V21Cfg c cfg) (henv : EnvOK env c cfg) {k : ManifestKind}
+    (hk : c.manifestKind = some k) {e tail : Bytes} (I : V21Img c cfg k e tail) (dek : Option Bytes) (p : Parsed)
+    (m : MixinName) (hm : m ∈ c.mixins)
+    (hc : provider m .mix_parse = some .Mbi_MixinManifest → p.cert = some (v21Cert cfg)) :
+    mixParse env c dek e p m = .ok (v21Upd c cfg k (provider m .mix_parse) p) := by
+  obtain ⟨x1, x2, x3, x4, x5, x6, x7⟩ := signedV21_excluded F m hm
+  obtain ⟨g1, g2, g3, g4⟩ := signedV21_flag_getters F G
+  cases hpv : provider m .mix_parse with
+  | none => unfold mixParse; simp only [hpv, v21Upd]
+  | some d =>
+    rw [hpv] at x1 x2 x3 x4 x5 x6 x7 hc
+    cases d
+    case Mbi_MixinCertBlockV21 => rw [signedV21_step_cert F henv I dek p m hpv]; rfl
+    case Mbi_MixinManifest => rw [signedV21_step_manifest F G hk I dek p m hpv (hc rfl)]; rfl
+    case Mbi_MixinLoadAddress => unfold mixParse; simp only [hpv, v21Upd, I.la]
+    case Mbi_MixinImageVersion => unfold mixParse; simp only [hpv, v21Upd, I.flags, g1]
+    case Mbi_MixinImageSubType => unfold mixParse; simp only [hpv, v21Upd, I.flags, g2]
+    case Mbi_MixinHwKey => unfold mixParse; simp only [hpv, v21Upd, I.flags, g3]
+    all_goals first
+      | (exfalso; first | exact x1 rfl | exact x2 rfl | exact x3 rfl | exact x4 rfl | exact x5 rfl | exact x6 rfl | exact x7 rfl)
+      | (unfold mixParse; simp only [hpv, v21Upd])
+
+theorem signedV21_manifest_waits (c : Cls) (done : Bool) (m : MixinName)
+    (h : provider m .mix_parse = some .Mbi_MixinManifest) :
+    mustWait c done m = (c.hasAttr .cert_block && !done) := by
+  cases m <;> first | (exact absurd h (by decide)) | simp [mustWait, preParsed]
+
+theorem signedV21_upd_cert (c : Cls) (cfg : Cfg) (k : ManifestKind) (o : Option MixinName) (p : Parsed) :
+    (v21Upd c cfg k o p).cert = if o = some .Mbi_MixinCertBlockV21 then some (v21Cert cfg) else p.cert := by
+  cases o with
+  | none => rfl
+  | some d => cases d <;> simp [v21Upd]
+
+theorem signedV21_setsCert (F : V21Cls c) (m : MixinName) (hm : m ∈ c.mixins) (h : setsCert m = true) :
+    provider m .mix_parse = some .Mbi_MixinCertBlockV21 := by
+  have := (signedV21_excluded F m hm).2.2.2.2.1
+  simp only [setsCert, Bool.or_eq_true, beq_iff_eq] at h
+  rcases h with h | h
+  · exact absurd h this
+  · exact h
+
+theorem signedV21_fold (F : V21Cls c) (G : V21Cfg c cfg) (henv : EnvOK env c cfg) {k : ManifestKind}
+    (hk : c.manifestKind = some k) {e tail : Bytes} (I : V21Img c cfg k e tail) (dek : Option Bytes) :
+    ∀ (order : List MixinName) (done : Bool) (p : Parsed), v21OkOrder c done order → (∀ m ∈ order, m ∈ c.mixins) →
+      (done = true → p.cert = some (v21Cert cfg)) →
+      order.foldlM (mixParse env c dek e) p
+        = .ok (order.foldl (fun p m => v21Upd c cfg k (provider m .mix_parse) p) p)
+  | [], _, _, _, _, _ => rfl
+  | m :: ms, done, p, hok, hmem, hdone => by
+    have hm := hmem m (List.mem_cons_self ..)
+    have hstep := signedV21_step F G henv hk I dek p m hm (by
+      intro hpv
+      have hw := hok.1
+      rw [signedV21_manifest_waits c done m hpv, F.aCert] at hw
+      exact hdone (by simpa using hw))
+    rw [List.foldlM_cons, hstep, List.foldl_cons]
+    refine signedV21_fold F G henv hk I dek ms (done || setsCert m) _ hok.2
+      (fun x hx => hmem x (List.mem_cons_of_mem _ hx)) ?_
+    intro hd
+    rw [signedV21_upd_cert]
+    by_cases hv : provider m .mix_parse = some .Mbi_MixinCertBlockV21
+    · rw [if_pos hv]
+    · rw [if_neg hv]
+      rcases Bool.or_eq_true _ _ ▸ hd with h | h
+      · exact hdone h
+      · exact absurd (signedV21_setsCert F m hm h) hv
+
+/-- has a mixin whose `mix_parse` is provided by `X` been called? -/
+def v21Sees (order : List MixinName) (X : MixinName) : Bool := order.any (fun m => provider m .mix_parse == some X)
+
+/-- the state after the calls, by the set of providers called -/
+def v21B (c : Cls) (cfg : Cfg) (k : ManifestKind) (s : MixinName → Bool) (p : Parsed) : Parsed :=
+  { p with
+    loadAddress := if s .Mbi_MixinLoadAddress then (if c.has .Mbi_MixinLoadAddress then cfg.loadAddress else 0) else p.loadAddress
+    imageVersion := if s .Mbi_MixinImageVersion then (if c.has .Mbi_MixinImageVersion then cfg.imageVersion else 0) else p.imageVersion
+    subType := if s .Mbi_MixinImageSubType then (if c.has .Mbi_MixinImageSubType then cfg.subType else 0) else p.subType
+    hwKey := if s .Mbi_MixinHwKey then (c.has .Mbi_MixinHwKey && cfg.hwKey) else p.hwKey
+    cert := if s .Mbi_MixinCertBlockV21 then some (v21Cert cfg) else p.cert
+    fwVersion := if s .Mbi_MixinManifest then cfg.fwVersion else p.fwVersion
+    tz := if s .Mbi_MixinManifest then cfg.tz else p.tz
+    manifestSeen := if s .Mbi_MixinManifest then true else p.manifestSeen
+    manifestFlags := if s .Mbi_MixinManifest then v21ManFlags k cfg else p.manifestFlags
+    digest := if s .Mbi_MixinManifest then v21Dig k cfg else p.digest }
+
+theorem signedV21_foldl (c : Cls) (cfg : Cfg) (k : ManifestKind) : ∀ (order : List MixinName) (p : Parsed),
+    order.foldl (fun p m => v21Upd c cfg k (provider m .mix_parse) p) p = v21B c cfg k (v21Sees order) p
+  | [], p => by simp [v21B, v21Sees]
+  | m :: ms, p => by
+    rw [List.foldl_cons, signedV21_foldl c cfg k ms]
+    cases hpv : provider m .mix_parse with
+    | none => simp [v21B, v21Sees, v21Upd, hpv]
+    | some d => cases d <;> simp [v21B, v21Sees, v21Upd, hpv]
+
+theorem signedV21_cover {order : List MixinName} (hmem : ∀ m, m ∈ order ↔ m ∈ c.dataMixins) (X Y : MixinName)
+    (hXY : ∀ m, derivesFrom m X = true → provider m .mix_parse = some Y ∧ isData m = true) (h : c.has X = true) :
+    v21Sees order Y = true := by
+  obtain ⟨m, hm, hd⟩ := signedV21_has_mem h
+  obtain ⟨h1, h2⟩ := hXY m hd
+  have : m ∈ order := (hmem m).2 (by simp [Cls.dataMixins, hm, h2])
+  simp only [v21Sees, List.any_eq_true, beq_iff_eq]
+  exact ⟨m, this, h1⟩
+
+theorem signedV21_prov_la (m : MixinName) (h : derivesFrom m .Mbi_MixinLoadAddress = true) :
+    provider m .mix_parse = some .Mbi_MixinLoadAddress ∧ isData m = true := by
+  cases m <;> first | decide | (revert h; decide)
+theorem signedV21_prov_iv (m : MixinName) (h : derivesFrom m .Mbi_MixinImageVersion = true) :
+    provider m .mix_parse = some .Mbi_MixinImageVersion ∧ isData m = true := by
+  cases m <;> first | decide | (revert h; decide)
+theorem signedV21_prov_st (m : MixinName) (h : derivesFrom m .Mbi_MixinImageSubType = true) :
+    provider m .mix_parse = some .Mbi_MixinImageSubType ∧ isData m = true := by
+  cases m <;> first | decide | (revert h; decide)
+theorem signedV21_prov_hw (m : MixinName) (h : derivesFrom m .Mbi_MixinHwKey = true) :
+    provider m .mix_parse = some .Mbi_MixinHwKey ∧ isData m = true := by
+  cases m <;> first | decide | (revert h; decide)
+theorem signedV21_prov_v21 (m : MixinName) (h : derivesFrom m .Mbi_MixinCertBlockV21 = true) :
+    provider m .mix_parse = some .Mbi_MixinCertBlockV21 ∧ isData m = true := by
+  cases m <;> first | decide | (revert h; decide)
+theorem signedV21_prov_mc (m : MixinName) (h : derivesFrom m .Mbi_MixinManifestCrc = true) :
+    provider m .mix_parse = some .Mbi_MixinManifest ∧ isData m = true := by
+  cases m <;> first | decide | (revert h; decide)
+theorem signedV21_prov_md (m : MixinName) (h : derivesFrom m .Mbi_MixinManifestDigest = true) :
+    provider m .mix_parse = some .Mbi_MixinManifest ∧ isData m = true := by
+  cases m <;> first | decide | (revert h; decide)
+
+theorem signedV21_sees_manifest (F : V21Cls c) {order : List MixinName} (hmem : ∀ m, m ∈ order ↔ m ∈ c.dataMixins) :
+    v21Sees order .Mbi_MixinManifest = true := by
+  have h := F.mkSome
+  unfold Cls.manifestKind at h
+  by_cases h1 : c.has .Mbi_MixinManifestCrc = true
+  · exact signedV21_cover hmem _ _ signedV21_prov_mc h1
+  · by_cases h2 : c.has .Mbi_MixinManifestDigest = true
+    · exact signedV21_cover hmem _ _ signedV21_prov_md h2
+    · simp [h1, h2] at h
+
+theorem signedV21_final (F : V21Cls c) (G : V21Cfg c cfg) {k : ManifestKind} (hk : c.manifestKind = some k)
+    (dek : Option Bytes) {order : List MixinName} (hmem : ∀ m, m ∈ order ↔ m ∈ c.dataMixins) :
+    v21B c cfg k (v21Sees order) {} = { canon c cfg dek with app := none } := by
+  have s1 := signedV21_sees_manifest F hmem
+  have s2 := signedV21_cover hmem _ _ signedV21_prov_v21 F.hasV21
+  have s3 := signedV21_cover hmem _ _ signedV21_prov_la
+  have s4 := signedV21_cover hmem _ _ signedV21_prov_iv
+  have s5 := signedV21_cover hmem _ _ signedV21_prov_st
+  have s6 := signedV21_cover hmem _ _ signedV21_prov_hw
+  have hla : (if v21Sees order .Mbi_MixinLoadAddress then (if c.has .Mbi_MixinLoadAddress then cfg.loadAddress else 0) else 0)
+      = (if c.has .Mbi_MixinLoadAddress then cfg.loadAddress else 0) := by
+    cases h : c.has .Mbi_MixinLoadAddress <;> simp [h] at s3 ⊢; simp [s3]
+  have hiv : (if v21Sees order .Mbi_MixinImageVersion then (if c.has .Mbi_MixinImageVersion then cfg.imageVersion else 0) else 0)
+      = (if c.has .Mbi_MixinImageVersion then cfg.imageVersion else 0) := by
+    cases h : c.has .Mbi_MixinImageVersion <;> simp [h] at s4 ⊢; simp [s4]
+  have hst : (if v21Sees order .Mbi_MixinImageSubType then (if c.has .Mbi_MixinImageSubType then cfg.subType else 0) else 0)
+      = (if c.has .Mbi_MixinImageSubType then cfg.subType else 0) := by
+    cases h : c.has .Mbi_MixinImageSubType <;> simp [h] at s5 ⊢; simp [s5]
+  have hhw : (if v21Sees order .Mbi_MixinHwKey then (c.has .Mbi_MixinHwKey && cfg.hwKey) else false)
+      = (c.has .Mbi_MixinHwKey && cfg.hwKey) := by
+    cases h : c.has .Mbi_MixinHwKey <;> simp [h] at s6 ⊢; simp [s6]
+  simp only [v21B, hla, hiv, hst, hhw, s1, s2, if_true, canon, F.hasV1, F.hasV21, hk, F.hasKs, F.hasHmac, F.hasCtr,
+    F.hasReloc, signedV21_hasTrustZone F, G.bca, G.fcf, Bool.false_eq_true, if_false, Option.isSome_some, ite_self,
+    v21Cert]
+  cases k <;> simp [v21ManFlags, v21Dig]
+
+theorem signedV21_mixParseAll (F : V21Cls c) (G : V21Cfg c cfg) (henv : EnvOK env c cfg) {k : ManifestKind}
+    (hk : c.manifestKind = some k) {e tail : Bytes} (I : V21Img c cfg k e tail) (dek : Option Bytes) :
+    mixParseAll env c dek e = .ok { canon c cfg dek with app := none } := by
+  obtain ⟨order, ho⟩ := Option.isSome_iff_exists.mp F.order
+  obtain ⟨hok, hmem⟩ := signedV21_parseOrder c order ho
+  unfold mixParseAll
+  rw [ho]
+  simp only
+  rw [signedV21_fold F G henv hk I dek order false {} hok
+    (fun m hm => (signedV21_mem_data ((hmem m).1 hm)).1) (by intro h; cases h),
+    signedV21_foldl, signedV21_final F G hk dek hmem]
+
+theorem signedV21_finalizeRevert (hl : CryptoLaws co) (F : V21Cls c) (G : V21Cfg c cfg) (k : ManifestKind)
+    (P : Parsed) (h1 : P.manifestSeen = true) (h2 : P.manifestFlags = v21ManFlags k cfg) (h3 : P.digest = v21Dig k cfg)
+    (x raw : Bytes) :
+    finalizeRevert c P (x ++ v21Hash co cfg k raw) = .ok x := by
+  unfold finalizeRevert
+  rw [F.rFin]
+  simp only [h1, h2, h3]
+  have hsha := G.sha1
+  cases k with
+  | crc => simp [v21ManFlags, v21Hash]
+  | digest =>
+    cases hd : cfg.digest with
+    | none => simp [v21ManFlags, v21Hash, v21Dig, hd, manifestFlags]
+    | some a =>
+      have hne : manifestFlags (some a) ≠ 0 := by cases a <;> decide
+      have hsz : (co.hash a raw).length = digestSize (some a) := by
+        rw [hl.hash_len]; cases a <;> first | rfl | exact absurd hd hsha
+      simp only [v21ManFlags, v21Hash, v21Dig, hd, hne, ne_eq, not_false_eq_true, Option.isSome_some, and_self,
+        if_true, dropLast, List.length_append, hsz, Nat.add_sub_cancel]
+      rw [List.take_left' rfl]
+
+theorem signedV21_signRevert (F : V21Cls c) (G : V21Cfg c cfg) (P : Parsed) (h1 : P.cert = some (v21Cert cfg))
+    (raw sig : Bytes) (hs : sig.length = cfg.sigLen) :
+    signRevert c P (raw ++ sig) = .ok raw := by
+  unfold signRevert
+  rw [F.sign]
+  have hne : (raw ++ sig).isEmpty = false := by
+    have := G.sigpos
+    cases sig with
+    | nil => simp at hs; omega
+    | cons a l => simp
+  simp only [h1, hne, v21Cert, dropLast, List.length_append, hs, Nat.add_sub_cancel]
+  simp
+
+theorem signedV21_parsed_facts (F : V21Cls c) {k : ManifestKind} (hk : c.manifestKind = some k) (dek : Option Bytes) :
+    (canon c cfg dek).cert = some (v21Cert cfg) ∧ (canon c cfg dek).manifestSeen = true
+    ∧ (canon c cfg dek).manifestFlags = v21ManFlags k cfg ∧ (canon c cfg dek).digest = v21Dig k cfg := by
+  simp only [canon, F.hasV1, F.hasV21, hk, Bool.false_eq_true, if_false, if_true, v21Cert, Option.isSome_some, true_and]
+  cases k <;> simp [v21ManFlags, v21Dig]
+
+theorem parse_export_signedV21 (h : Hyp co env c cfg signer) (hf : c.family = some .signedV21) (dek : Option Bytes) :
+    ∃ e, exportImage co c cfg signer = .ok e ∧ parseImage co env c dek e = .ok (canon c cfg dek) := by
+  have F := signedV21_classFacts h.hcls hf
+  have G := signedV21_cfgFacts F h.hcfg
+  obtain ⟨k, hk⟩ := Option.isSome_iff_exists.mp F.mkSome
+  refine ⟨_, signedV21_export F G k hk, ?_⟩
+  have hlen := signedV21_image_length (signer := signer) h.hlaws h.hsig F G k hk
+  rw [signedV21_image_assoc] at hlen
+  have htail : 0 < (signer (v21Raw c cfg k) ++ v21Hash co cfg k (v21Raw c cfg k)).length := by
+    have := G.sigpos
+    rw [List.length_append, h.hsig]; omega
+  have I := signedV21_img F G k _ htail hlen
+  obtain ⟨p1, p2, p3, p4⟩ := signedV21_parsed_facts (cfg := cfg) F hk dek
+  have hmix := signedV21_mixParseAll F G h.henv hk I dek
+  rw [← signedV21_image_assoc] at hmix
+  unfold parseImage
+  simp only [hmix, bind, Except.bind]
+  have hfin := signedV21_finalizeRevert h.hlaws F G k { canon c cfg dek with app := none } p2 p3 p4
+    (v21Raw c cfg k ++ signer (v21Raw c cfg k)) (v21Raw c cfg k)
+  have hsign := signedV21_signRevert F G { canon c cfg dek with app := none } p1 (v21Raw c cfg k)
+    (signer (v21Raw c cfg k)) (h.hsig _)
+  have hdis := signedV21_disassemble F G k { canon c cfg dek with app := none } (by rw [p1]; rfl)
+  simp only [v21Image, hfin, hsign, postEncryptRevert, F.rPost, encryptRevert, F.rEnc, hdis]
+  rw [← signedV21_canon_app F dek]
+
+/-- the configuration a parsed image is re-exported from: the same settings with the cleaned application -/
+def v21Cfg' (cfg : Cfg) : Cfg := { cfg with app := cleanIvt (appData cfg) }
+
+theorem signedV21_toCfg (F : V21Cls c) (G : V21Cfg c cfg) {k : ManifestKind} (hk : c.manifestKind = some k)
+    (dek : Option Bytes) : (canon c cfg dek).toCfg = v21Cfg' cfg := by
+  have h1 := G.reloc; have h2 := G.ks; have h3 := G.hmac; have h4 := G.bca; have h5 := G.fcf; have h6 := G.ctr
+  have h7 := G.dig; have h8 := G.ver0; have h9 := G.sub0; have h10 := G.hw0; have h11 := G.la0
+  rw [hk] at h7
+  obtain ⟨app, la, iv, st, tz, hw, ks, hm, ctr, rel, cert, sl, fw, dig, bca, fcf⟩ := cfg
+  simp only at h1 h2 h3 h4 h5 h6 h7 h8 h9 h10 h11
+  subst h1 h2 h3 h4 h5 h6
+  simp only [Parsed.toCfg, canon, v21Cfg', F.clean, F.hasV1, F.hasV21, hk, F.hasKs, F.hasHmac, F.hasCtr, F.hasReloc,
+    signedV21_hasTrustZone F, Bool.false_eq_true, if_false, if_true, Option.isSome_some, ite_self, Option.getD_some]
+  congr 1
+  · cases h : c.has .Mbi_MixinLoadAddress <;> simp_all
+  · cases h : c.has .Mbi_MixinImageVersion <;> simp_all
+  · cases h : c.has .Mbi_MixinImageSubType <;> simp_all
+  · cases h : c.has .Mbi_MixinHwKey <;> simp_all
+  · cases k <;> simp_all
+
+theorem signedV21_rd32_take (b : Bytes) (n off : Nat) (h : off + 4 ≤ n) (hn : n ≤ b.length) :
+    rd32 (b.take n) off = rd32 b off := by
+  conv => rhs; rw [← List.take_append_drop n b]
+  rw [rd32_append_left _ _ _ (by rw [List.length_take]; omega)]
+
+theorem signedV21_rd32_cleanIvt (A : Bytes) (hA : minIvtSize ≤ A.length) (off : Nat) (h : off + 4 ≤ 32) :
+    rd32 (cleanIvt A) off = rd32 A off := by
+  simp only [minIvtSize] at hA
+  rw [cleanIvt_eq A hA]
+  simp only [List.append_assoc]
+  rw [rd32_append_left _ _ _ (by rw [List.length_take]; omega), signedV21_rd32_take _ _ _ h (by omega)]
+
+theorem signedV21_appData' (F : V21Cls c) (G : V21Cfg c cfg) : appData (v21Cfg' cfg) = cleanIvt (appData cfg) := by
+  have hA := signedV21_app_len F G
+  show align4 (cleanIvt (appData cfg)) = _
+  apply align4_of_aligned
+  rw [cleanIvt_length _ hA]
+  exact align4_length_mod _
+
+theorem signedV21_validateMixin' (F : V21Cls c) (G : V21Cfg c cfg) (m : MixinName) :
+    validateMixin c (v21Cfg' cfg) m = validateMixin c cfg m := by
+  have hA := signedV21_app_len F G
+  unfold validateMixin
+  simp only [signedV21_appData' F G, cleanIvt_length _ hA, signedV21_rd32_cleanIvt _ hA 0 (by omega),
+    signedV21_rd32_cleanIvt _ hA 4 (by omega), signedV21_rd32_cleanIvt _ hA 8 (by omega)]
+  rfl
+
+theorem signedV21_totalLen' (F : V21Cls c) (G : V21Cfg c cfg) : totalLen c (v21Cfg' cfg) = totalLen c cfg := by
+  obtain ⟨k, hk⟩ := Option.isSome_iff_exists.mp F.mkSome
+  have e1 := signedV21_totalLen (cfg := v21Cfg' cfg) F k hk
+  have e2 := signedV21_totalLen (cfg := cfg) F k hk
+  have h1 : (v21Cfg' cfg).cert = cfg.cert := rfl
+  have h2 : (v21Cfg' cfg).sigLen = cfg.sigLen := rfl
+  have h3 : manifestLen k (v21Cfg' cfg) = manifestLen k cfg := rfl
+  have h4 : v21DigLen k (v21Cfg' cfg) = v21DigLen k cfg := rfl
+  rw [signedV21_appData' F G, cleanIvt_length _ (signedV21_app_len F G), h1, h2, h3, h4] at e1
+  rw [e1, e2]
+
+theorem signedV21_validate' (F : V21Cls c) (G : V21Cfg c cfg) : validate c (v21Cfg' cfg) = validate c cfg := by
+  have hfun : validateMixin c (v21Cfg' cfg) = validateMixin c cfg := funext (signedV21_validateMixin' F G)
+  unfold validate
+  rw [hfun]
+
+theorem signedV21_packGuard' (F : V21Cls c) (G : V21Cfg c cfg) : packGuard c (v21Cfg' cfg) = packGuard c cfg := by
+  unfold packGuard
+  rw [signedV21_totalLen' F G]
+  rfl
+
+theorem signedV21_cfgFacts' (F : V21Cls c) (G : V21Cfg c cfg) : V21Cfg c (v21Cfg' cfg) := by
+  have hfl : flagsOf c (v21Cfg' cfg) = flagsOf c cfg := by unfold flagsOf; simp only [v21Cfg']
+  refine
+  { val := (signedV21_validate' F G).trans G.val
+    pack := (signedV21_packGuard' F G).trans G.pack
+    la := ?_, iv := ?_, st := ?_, fw := ?_, fl := hfl ▸ G.fl, tz := ?_, reloc := ?_, ks := ?_, hmac := ?_
+    bca := ?_, fcf := ?_, certne := ?_, sigpos := ?_, dig := ?_, sha1 := ?_, ver0 := ?_
+    sub0 := ?_, hw0 := ?_, la0 := ?_, ctr := ?_ } <;> simp only [v21Cfg']
+  · exact G.la
+  · exact G.iv
+  · exact G.st
+  · exact G.fw
+  · exact G.tz
+  · exact G.reloc
+  · exact G.ks
+  · exact G.hmac
+  · exact G.bca
+  · exact G.fcf
+  · exact G.certne
+  · exact G.sigpos
+  · exact G.dig
+  · exact G.sha1
+  · exact G.ver0
+  · exact G.sub0
+  · exact G.hw0
+  · exact G.la0
+  · exact G.ctr
+
+theorem signedV21_updateIvt' (c : Cls) (cfg : Cfg) (x : Bytes) (t o : Nat) :
+    updateIvt c (v21Cfg' cfg) x t o = updateIvt c cfg x t o := rfl
+
+theorem signedV21_app' (F : V21Cls c) (G : V21Cfg c cfg) : v21App c (v21Cfg' cfg) = v21App c cfg := by
+  unfold v21App
+  rw [signedV21_updateIvt', signedV21_appData' F G, signedV21_totalLen' F G, signedV21_appLen F, signedV21_appLen F,
+    signedV21_appData' F G, cleanIvt_length _ (signedV21_app_len F G),
+    updateIvt_cleanIvt _ _ _ _ _ (signedV21_app_len F G)]
+
+theorem signedV21_manifestBytes' (k : ManifestKind) (cfg : Cfg) (crc : Nat) :
+    manifestBytes k (v21Cfg' cfg) crc = manifestBytes k cfg crc := rfl
+
+theorem signedV21_raw' (F : V21Cls c) (G : V21Cfg c cfg) (k : ManifestKind) :
+    v21Raw c (v21Cfg' cfg) k = v21Raw c cfg k := by
+  have hc : (v21Cfg' cfg).cert = cfg.cert := rfl
+  unfold v21Raw v21Man
+  cases k <;> simp only [signedV21_app' F G, hc, signedV21_manifestBytes']
+
+theorem signedV21_hash' (co : CryptoOps) (cfg : Cfg) (k : ManifestKind) (raw : Bytes) :
+    v21Hash co (v21Cfg' cfg) k raw = v21Hash co cfg k raw := rfl
+
+theorem reexport_signedV21 (h : Hyp co env c cfg signer) (hf : c.family = some .signedV21) (signer' : Signer)
+    (hs' : ∀ m, (signer' m).length = cfg.sigLen) (dek : Option Bytes)
+    (hdek : c.has .Mbi_MixinHmac = true → dek = cfg.hmacKey) :
+    ∃ e e', exportImage co c cfg signer = .ok e ∧ exportImage co c (canon c cfg dek).toCfg signer' = .ok e'
+      ∧ eqOutsideSig c cfg e e' := by
+  have F := signedV21_classFacts h.hcls hf
+  have G := signedV21_cfgFacts F h.hcfg
+  obtain ⟨k, hk⟩ := Option.isSome_iff_exists.mp F.mkSome
+  have G' := signedV21_cfgFacts' F G
+  refine ⟨v21Image co c cfg signer k, v21Image co c (v21Cfg' cfg) signer' k, signedV21_export F G k hk, ?_, ?_⟩
+  · rw [signedV21_toCfg F G hk dek]
+    exact signedV21_export F G' k hk
+  · have hH := signedV21_hash_length h.hlaws G k (v21Raw c cfg k)
+    have hd : (if c.manifestKind = some ManifestKind.digest then digestSize cfg.digest else 0) = v21DigLen k cfg := by
+      rw [hk]; cases k <;> simp [v21DigLen]
+    unfold eqOutsideSig sigOffset
+    simp only [F.sign, hd, v21Image, signedV21_raw' F G, signedV21_hash']
+    generalize v21Raw c cfg k = raw at hH ⊢
+    generalize v21Hash co cfg k raw = H at hH ⊢
+    have e1 : (raw ++ signer raw ++ H).length - v21DigLen k cfg - cfg.sigLen = raw.length := by
+      simp only [List.length_append, h.hsig, hH]; omega
+    simp only [e1]
+    refine ⟨by simp [h.hsig, hs'], ?_, ?_⟩
+    · simp [List.append_assoc]
+    · have l1 : raw.length + cfg.sigLen = (raw ++ signer raw).length := by simp [h.hsig]
+      have l2 : raw.length + cfg.sigLen = (raw ++ signer' raw).length := by simp [hs']
+      conv => lhs; rw [l1, List.drop_left]
+      conv => rhs; rw [l2, List.drop_left]
 
 end SpsdkVerif.Mbi
